@@ -15,6 +15,7 @@ import GivaroModel.Lemmas.PolyMisc
 import GivaroModel.Lemmas.PolyDiv
 import GivaroModel.Lemmas.PolyEuclid
 import GivaroModel.Lemmas.PolyMid
+import GivaroModel.Lemmas.PolyMidKara
 import GivaroModel.Lemmas.PadicLemmas
 
 open Polynomial
@@ -201,14 +202,9 @@ theorem stdmidmul_public_exact (P Q : List K) (hQ : Q ≠ []) (i : Nat) :
       = if i < P.length - Q.length + 1 then (toPoly P * toPoly Q).coeff (i + Q.length - 1) else 0 :=
   coeff_of_stdmid P Q hQ i
 
-/-- PARTIAL.  Full statement: for every threshold, all non-empty `P`, `Q` with `|P| ≥ |Q|` and every `i`,
-      `(toPoly (midmul thr P Q)).coeff i = if i < |P|-|Q|+1 then (toPoly P * toPoly Q).coeff (i+|Q|-1) else 0`
-    (and the same for `karamidmul` when `|P| = 2|Q|-1`).
-    Proved here for the operands on which the generic `midmul` selects the schoolbook middle product
-    (`min(m,n) <= KARA_THRESHOLD`, `m = |P|-|Q|+1`, `n = |Q|`).  The Karatsuba middle product (`karamidStep`) and the two
-    unbalanced block loops of `midR` are modelled line by line and compared with the implementation at thresholds 50 and
-    2, but their exactness is decided per generated case by the reference product, not by this theorem. -/
-theorem midmul_exact_partial (thr : Nat) (P Q : List K) (hQ : Q ≠ [])
+/-- the operands on which the generic `midmul` selects the schoolbook middle product (`min(m,n) <= KARA_THRESHOLD`,
+    `m = |P|-|Q|+1`, `n = |Q|`, or `|P| < |Q|`) -/
+theorem midmul_small_exact (thr : Nat) (P Q : List K) (hQ : Q ≠ [])
     (h : P.length + 1 ≤ Q.length ∨ min (P.length + 1 - Q.length) Q.length ≤ thr) (i : Nat) :
     (toPoly (midmul thr P Q)).coeff i
       = if i < P.length - Q.length + 1 then (toPoly P * toPoly Q).coeff (i + Q.length - 1) else 0 := by
@@ -227,6 +223,70 @@ theorem midmul_exact_partial (thr : Nat) (P Q : List K) (hQ : Q ≠ [])
 example : ∃ (thr : Nat) (P Q : List ℚ), Q ≠ [] ∧
     (P.length + 1 ≤ Q.length ∨ min (P.length + 1 - Q.length) Q.length ≤ thr) :=
   ⟨50, [1, 2, 3], [1, 2], by simp, Or.inr (by decide)⟩
+
+/-- Tier B, one level of `karamidmul(R,Rbeg,Rend,P,Pbeg,Pend,Q,Qbeg,Qend)` on a balanced shape (`|P| = 2|Q|-1`, R range of
+    `|Q|` places; `n0, n1, P0end, P1beg, P1plus, P1minus, P2beg, Qmid, Rmid`, `S0 = MP(P0+P1+, Q1)`, `S1 = MP(P1-+P2, Q0)`,
+    `S2 = MP(P1+, Q1 - X^(n%2) Q0)`, `R0 = S0 - S2`, `R1 = S1 + S2` as in the source), given recursive calls that are exact
+    on well-formed shapes: the R range keeps its length and entry `i` is the coefficient `i + |Q| - 1` of `P·Q` -/
+theorem karamidStep_exact (mid : Nat → List K → List K → List K) (hmid : MidOK mid) (P Q : List K) (hQ : Q ≠ [])
+    (hP : P.length + 1 = 2 * Q.length) :
+    (karamidStep mid Q.length P Q).length = Q.length ∧
+    ∀ i, i < Q.length → (karamidStep mid Q.length P Q).getD i 0 = (toPoly P * toPoly Q).coeff (i + Q.length - 1) := by
+  obtain ⟨h1, h2⟩ := Givaro.Lemmas.Poly.karamidStep_exact mid hmid P Q hQ hP
+  exact ⟨h1, fun i hi => by rw [h2 i hi, cs_eq_coeff]⟩
+
+example : ∃ (mid : Nat → List ℚ → List ℚ → List ℚ) (P Q : List ℚ), MidOK mid ∧ Q ≠ [] ∧ P.length + 1 = 2 * Q.length :=
+  ⟨midR 50 0, [1, 2, 3], [1, 2], midR_spec 50 0, by simp, by simp⟩
+
+/-- Tier B `midmul_exact`, range form: the generic `midmul(R,Rbeg,Rend,P,Pbeg,Pend,Q,Qbeg,Qend)` as written — dispatch
+    `min(m,n) <= KARA_THRESHOLD` to `stdmidmul`, `m = n` to `karamidmul` (recursion through the generic form), `m > n`: the loop
+    of balanced products on `R[i,i+n)`, `P[i,i+2n-1)` for `i = 0, n, … <= m-n` and the generic form on the rest, `m < n`: the
+    first balanced product written into `R`, the further ones (windows of `P` from the top, blocks of `m` coefficients of `Q`
+    from the bottom) and the generic form on what is left of `Q` accumulated through `Tmp` — on every well-formed range shape
+    (`|R| = |P| - |Q| + 1`, `1 <= |Q| <= |P|`, balanced or not), **every threshold** (0 included) and every recursion budget:
+    entry `i` of the R range is the coefficient `i + |Q| - 1` of `P·Q` -/
+theorem midR_exact (thr fuel : Nat) (P Q : List K) (hQ : Q ≠ []) (hPQ : Q.length ≤ P.length) (i : Nat)
+    (hi : i < P.length + 1 - Q.length) :
+    (midR thr fuel (P.length + 1 - Q.length) P Q).getD i 0 = (toPoly P * toPoly Q).coeff (i + Q.length - 1) := by
+  rw [midR_spec thr fuel P Q hQ hPQ i hi, cs_eq_coeff]
+
+example : ∃ (P Q : List ℚ) (i : Nat), Q ≠ [] ∧ Q.length ≤ P.length ∧ i < P.length + 1 - Q.length :=
+  ⟨[1, 2, 3], [1, 2], 0, by simp, by simp, by simp⟩
+
+/-- Tier B `midmul_exact` (full; replaces the former `midmul_exact_partial`): the public `midmul(R,P,Q)` holds exactly the
+    coefficients `|Q|-1 … |P|-1` of `P·Q`, for every threshold, every `P` and every non-empty `Q` (any sizes: balanced,
+    `m > n`, `m < n`, below and above the threshold, any storage) -/
+theorem midmul_exact (thr : Nat) (P Q : List K) (hQ : Q ≠ []) (i : Nat) :
+    (toPoly (midmul thr P Q)).coeff i
+      = if i < P.length - Q.length + 1 then (toPoly P * toPoly Q).coeff (i + Q.length - 1) else 0 := by
+  by_cases h : P.length + 1 ≤ Q.length
+  · exact midmul_small_exact thr P Q hQ (Or.inl h) i
+  · have hn : 0 < Q.length := List.length_pos_iff.mpr hQ
+    have hP : P ≠ [] := by intro e; subst e; exact h (by show 0 + 1 ≤ Q.length; omega)
+    unfold midmul
+    rw [if_neg (by simp [hP, hQ])]
+    have e : P.length - Q.length + 1 = P.length + 1 - Q.length := by omega
+    rw [e, toPoly_setdegree, coeff_toPoly, getD_pad]
+    split
+    · next hi => rw [midR_spec thr _ P Q hQ (by omega) i hi, cs_eq_coeff]
+    · rfl
+
+example : ∃ Q : List ℚ, Q ≠ [] := ⟨[1], by simp⟩
+
+/-- the public `karamidmul(R,P,Q)` (first Karatsuba level forced, documented precondition `|P| = 2|Q|-1`): exactly the
+    coefficients `|Q|-1 … 2|Q|-2` of `P·Q`, for every threshold -/
+theorem karamidmul_exact (thr : Nat) (P Q : List K) (hQ : Q ≠ []) (hP : P.length + 1 = 2 * Q.length) (i : Nat) :
+    (toPoly (karamidmul thr P Q)).coeff i
+      = if i < Q.length then (toPoly P * toPoly Q).coeff (i + Q.length - 1) else 0 := by
+  have hn : 0 < Q.length := List.length_pos_iff.mpr hQ
+  unfold karamidmul
+  have e : P.length - Q.length + 1 = Q.length := by omega
+  rw [e, toPoly_setdegree, coeff_toPoly, getD_pad]
+  split
+  · next hi => rw [(Givaro.Lemmas.Poly.karamidStep_exact _ (midR_spec thr _) P Q hQ hP).2 i hi, cs_eq_coeff]
+  · rfl
+
+example : ∃ (P Q : List ℚ), Q ≠ [] ∧ P.length + 1 = 2 * Q.length := ⟨[1, 2, 3], [1, 2], by simp, by simp⟩
 
 /-- the fused forms are exact (they are compositions of `mul`, `addin`, `subin`, `sub`, `neg`) -/
 theorem fused_exact (thr : Nat) (R A X' Y : List K) (c : K) :
